@@ -63,6 +63,17 @@ def decls_copies(region):
     return decls, copies, rets, asg
 
 
+def f0(run, tu):
+    """the store helpers convert the value they are given: nothing rewrites `source` first (clamping or rounding by hand
+    replaces the compiler's round-to-nearest conversion by something else near the limits)"""
+    for F in ('write_raw_float_data', 'write_raw_longdouble_data', 'write_raw_complex_data'):
+        fn = tu.func(F)
+        ws = [(lv, x) for n in cx.walk(fn) if cx.is_expr(n) or n.get('kind') in ('DeclStmt',) for lv, x in cx.writes(n) if lv == 'source' or lv.startswith('source.')]
+        ws = [(lv, x) for lv, x in ws if x.get('kind') != 'ParmVarDecl']
+        run.ob('F1/value-converted-as-given', F, 'no assignment to `source` before the conversion', not ws, tu.where(ws[0][1]) if ws else tu.where(fn),
+               'source is rewritten (%s): the stored value is no longer the C conversion of the Python float' % (cx.render(ws[0][1])[:60] if ws else ''))
+
+
 def f1(run, tu):
     F = 'write_raw_float_data'
     g, br = branches(tu, F, r'^size == sizeof\((.+)\)$')
@@ -295,6 +306,7 @@ def check(run):
                      'lengths and offsets), cast-kind inspection (FloatingCast) on every expression reaching a long double store, '
                      'dominance facts for the long double -> long double paths, wiring of the store/cast/read paths and header macros')
     tu = backend_tu()
+    f0(run, tu)
     f1(run, tu)
     f2(run, tu)
     f3(run, tu)
